@@ -20,6 +20,9 @@ type ParseCase struct {
 	Src  string   `json:"src"`
 	Tree *m.Expr  `json:"tree,omitempty"` // the tree the source was rendered from (groups removed), if any
 	Mode string   `json:"mode,omitempty"` // full | minimal | redundant | tokens
+	// tables with which the same source was parsed earlier in this process (their result is
+	// not looked at): a parser must depend on its own declarations only
+	Prev [][]ref.Op `json:"prev,omitempty"`
 }
 
 func (c *ParseCase) table() []ref.Op {
@@ -108,6 +111,9 @@ func checkParse(c *ParseCase) *Outcome {
 		return skip("does-not-lex")
 	}
 	want, info, werr := ref.Parse(toks, ops)
+	for _, prev := range c.Prev {
+		_, _ = run.YaeParse(c.Src, prev)
+	}
 	tree, p := run.YaeParse(c.Src, c.Ops)
 	if p != nil && p.Runtime {
 		return bad("parser failed with a runtime error instead of a syntax error: %s (%s)", p.Text, desc())
@@ -126,6 +132,9 @@ func checkParse(c *ParseCase) *Outcome {
 		return bad("parser rejects what the declarations accept as %s: %s (%s)", want, p.Text, desc())
 	}
 	classes := []string{"mode:" + c.Mode}
+	if len(c.Prev) > 0 {
+		classes = append(classes, "after-sibling-table")
+	}
 	if c.Ops != nil {
 		classes = append(classes, "custom-table")
 	}
@@ -511,7 +520,73 @@ func minimalParens(t *rapid.T, full *m.Expr, ops []ref.Op, keepSome bool) *m.Exp
 	return cur
 }
 
+// siblingTable perturbs a table the way two registrations in one program differ: powers that
+// differ only in their fraction, swapped or shifted powers, one other fixity, another
+// declaration order, one operator more or fewer.
+func siblingTable(t *rapid.T, ops []ref.Op) []ref.Op {
+	out := append([]ref.Op(nil), ops...)
+	if len(out) == 0 {
+		return out
+	}
+	fracs := []float64{0, 0.25, 0.5, 0.75}
+	switch rapid.IntRange(0, 6).Draw(t, "sibling") {
+	case 0:
+		for i := range out {
+			w := float64(int(out[i].BP)) + fracs[rapid.IntRange(0, 3).Draw(t, "frac")]
+			if w <= 0 {
+				w = 0.25
+			}
+			out[i].BP = w
+		}
+	case 1:
+		i, j := rapid.IntRange(0, len(out)-1).Draw(t, "i"), rapid.IntRange(0, len(out)-1).Draw(t, "j")
+		out[i].BP, out[j].BP = out[j].BP, out[i].BP
+	case 2:
+		for i := range out {
+			if out[i].BP+1 <= 13.5 {
+				out[i].BP++
+			}
+		}
+	case 3:
+		i := rapid.IntRange(0, len(out)-1).Draw(t, "i")
+		if out[i].Fix != "prefix" && out[i].Fix != "postfix" {
+			out[i].Fix = pick2(t, []string{"infixl", "infixr", "infixn"})
+		}
+	case 4:
+		for i, j := 0, len(out)-1; i < j; i, j = i+1, j-1 {
+			out[i], out[j] = out[j], out[i]
+		}
+	case 5:
+		i := rapid.IntRange(0, len(out)-1).Draw(t, "i")
+		name := out[i].Name
+		var kept []ref.Op
+		for _, o := range out {
+			if o.Name != name {
+				kept = append(kept, o)
+			}
+		}
+		out = kept
+	default:
+		i := rapid.IntRange(0, len(out)-1).Draw(t, "i")
+		out[i].BP = bpPool[rapid.IntRange(0, len(bpPool)-1).Draw(t, "bp")]
+	}
+	return out
+}
+
 func genParseCase(t *rapid.T) *ParseCase {
+	c := genParseCase0(t)
+	if rapid.IntRange(0, 2).Draw(t, "withprev") == 0 {
+		n := rapid.IntRange(1, 2).Draw(t, "nprev")
+		for i := 0; i < n; i++ {
+			if sib := siblingTable(t, c.table()); len(sib) > 0 {
+				c.Prev = append(c.Prev, sib)
+			}
+		}
+	}
+	return c
+}
+
+func genParseCase0(t *rapid.T) *ParseCase {
 	c := &ParseCase{Ops: genTable(t)}
 	ops := c.table()
 	g := &treeGen{t: t}
@@ -622,7 +697,7 @@ func tableAlphabet(ops []ref.Op) []string {
 }
 
 func TestC08(t *testing.T) {
-	R.Rule = "operator tables of 1-8 operators over a symbol alphabet (symbolic 1-3 characters, identifier-like incl. non-ASCII; prefix / postfix / infix left / right / non-associative; a symbol may be prefix and one other role; binding powers 0.5..13.5 incl. fractional, equal and built-in-colliding ones) and the built-in table; expression trees to depth 4 over atoms, all operator kinds, ?:, calls, method calls, dynamic calls, members, subscripts and list / map / object literals, rendered fully parenthesised, with the minimal parentheses the reference needs, with redundant ones, or without any; random token soup; exhaustive token sequences up to length 4 (quick) / 5 (thorough) over a 17-token alphabet for the built-in table and one shorter for three fixed custom tables; white space between tokens drawn from blanks and line breaks; oracle: reference precedence parser (accept / reject, tree, every node's span line and column), and round trip of the rendering; non-trivial = >= 2 different operators interacting, or a prefix / postfix next to an infix, or a rejected non-associative chain, or >= 3 tokens with >= 2 node kinds"
+	R.Rule = "operator tables of 1-8 operators over a symbol alphabet (symbolic 1-3 characters, identifier-like incl. non-ASCII; prefix / postfix / infix left / right / non-associative; a symbol may be prefix and one other role; binding powers 0.5..13.5 incl. fractional, equal and built-in-colliding ones) and the built-in table; expression trees to depth 4 over atoms, all operator kinds, ?:, calls, method calls, dynamic calls, members, subscripts and list / map / object literals, rendered fully parenthesised, with the minimal parentheses the reference needs, with redundant ones, or without any; random token soup; exhaustive token sequences up to length 4 (quick) / 5 (thorough) over a 17-token alphabet for the built-in table and one shorter for three fixed custom tables; white space between tokens drawn from blanks and line breaks; one case in three first parses the same source with one or two sibling tables (powers differing only in the fraction, swapped / shifted powers, another fixity, reversed declaration order, one operator fewer) in the same process; oracle: reference precedence parser (accept / reject, tree, every node's span line and column), and round trip of the rendering; non-trivial = >= 2 different operators interacting, or a prefix / postfix next to an infix, or a rejected non-associative chain, or >= 3 tokens with >= 2 node kinds"
 	R.Assume = []string{"ref.Parse is the reading of the declarations' meaning; tables where one symbol has two infix/postfix roles or re-declares . ? or punctuation are out of domain; member names that are not identifier-like and operators of equal power but different associativity are unspecified (counted, tree not compared)"}
 	reportKnown(t, "C08")
 	runRegress(t, "C08")
